@@ -30,6 +30,7 @@ def parseOp (toks : List String) : Option Op :=
   | ["dvset", k, o, le, x] => do some (.dvSet (← parseKind k) (← o.toNat?) (le == "1") (← parseVal x))
   | ["detach"] => some .detach
   | ["copy", d, sv, o] => do some (.copy (← d.toNat?) (← sv.toNat?) (← o.toNat?))
+  | ["scopy", d, sv, o] => do some (.copy (← d.toNat?) (← sv.toNat?) (← o.toNat?))   -- same bytes, source held in a SharedArrayBuffer
   | ["cw", v, t, st, e] => do some (.copyWithin (← v.toNat?) (← t.toNat?) (← st.toNat?) (← parseOptNat e))
   | _ => none
 
